@@ -41,6 +41,19 @@ def check(repo: Repo, rep, tier):
     from .C05 import emit_complete
 
     emit_complete(repo, rep)
+    from .C18 import kwarg_position
+
+    kwarg_position(repo, rep)
+    frame_locals(repo, rep)
+    from .C05 import positional_map
+
+    positional_map(repo, rep)
+    from .C05 import insert_once
+    from .C11 import align_complete, align_window
+
+    insert_once(repo, rep)
+    align_window(repo, rep)
+    align_complete(repo, rep)
     ctx_restore(repo, rep)
 
 
@@ -325,3 +338,33 @@ def same_type(repo: Repo, rep):
             rep.ok("R-SAME-TYPE", f, r.ast, "structural adapter only for identical types")
         else:
             rep.violation("R-SAME-TYPE", f, r.ast, "a structural adapter is chosen although old and new value need not have the same type (no `type(old) is type(new)` test on every path): fix repairs the arguments but keeps the old class name, so the comparison still fails after the fix", construct="get_adapter")
+
+
+def frame_locals(repo: Repo, rep):
+    rep.rule(
+        "R-FRAME-LOCALS",
+        "names in a snapshot argument are resolved where the snapshot() call was written: snapshot() builds the evaluation context from BOTH `f_globals` and "
+        "`f_locals` of the calling frame and AdapterContext.eval() hands both to eval().  A class that is only bound locally (imported inside the test after "
+        "pytest.importorskip, defined in the test body) is otherwise not found when the call adapter evaluates the constructor: NameError inside ==, nothing "
+        "is repaired",
+    )
+    sn = repo.func("_inline_snapshot.py::snapshot")
+    txt = [norm(c) for c in body_nodes(sn.node) if isinstance(c, ast.Call)]
+    has_g = any("f_globals" in t for t in txt)
+    has_l = any("f_locals" in t for t in txt)
+    if has_g and has_l:
+        rep.ok("R-FRAME-LOCALS", sn, sn.node, "the context carries f_globals and f_locals of the calling frame")
+    else:
+        rep.violation("R-FRAME-LOCALS", sn, sn.node, f"snapshot() builds the evaluation context without {'f_locals' if not has_l else 'f_globals'} of the calling frame: names bound only in the test function are not resolvable when a call in the snapshot is fixed", construct="context-without-" + ("locals" if not has_l else "globals"))
+    ev = repo.find_func("_adapter/adapter.py", "AdapterContext.eval")
+    if ev is None:
+        rep.undecided("R-FRAME-LOCALS", "AdapterContext.eval not found")
+        return
+    calls = [c for c in body_nodes(ev.node) if isinstance(c, ast.Call) and isinstance(c.func, ast.Name) and c.func.id == "eval"]
+    rep.floor("R-FRAME-LOCALS", "eval() calls in AdapterContext.eval", len(calls), 1)
+    for c in calls:
+        a = [norm(x) for x in c.args[1:]] + [norm(k.value) for k in c.keywords]
+        if any("globals" in x for x in a) and any("locals" in x for x in a):
+            rep.ok("R-FRAME-LOCALS", ev, c, "eval(code, globals, locals)")
+        else:
+            rep.violation("R-FRAME-LOCALS", ev, c, f"`{short(c, 70)}` evaluates the callee without the local namespace of the test function", construct="eval-without-locals")
